@@ -51,8 +51,17 @@ def gen_case(seed, tier, index=0):
         n = int(10 ** rr.uniform(0, 3.7))
     else:
         n = int(10 ** rr.uniform(0, 3.8))
-    return {'prog': prog, 'knobs': knobs, 'dur': rr.choice([0.3, 1.0]), 'status_interval': rr.choice([1.0, 2.0, 5.0]),
+    case = {'prog': prog, 'knobs': knobs, 'dur': rr.choice([0.3, 1.0]), 'status_interval': rr.choice([1.0, 2.0, 5.0]),
             'crash_class': cls, 'crash_at': n, 'sched_seed': rr.getrandbits(48)}
+    if rr.random() < 0.2:
+        # the process dies *between* two updates (after a stage completed, nothing in flight) and the run is restarted
+        # from the next stage: the restarted process goes on updating the same state files
+        case['mode'] = 'restart'
+        case['crash_at'] = 10 ** 9
+        case['restart_stage'] = rr.choice([1, 1, 2])
+        if prog['import_stage'] == 0:
+            prog['import_stage'] = 1
+    return case
 
 
 def shrink_candidates(case):
@@ -100,6 +109,7 @@ def run_case(case, schedule, opts):
         body_stage = {n: st for (n, st, _, _, _) in e2.body_components(prog)}
         main += 'output:\n  Result:\n    data-in: "stage%d.work/data.txt:ref"\n    description: "loop result"\n    type: txt\n' % (
             prog['import_stage'] + body_stage['work'])
+        main += '  Input:\n    data-in: "stage0.GenerateInput/data.txt:ref"\n    description: "the input"\n    type: txt\n'
         exp = R.build_experiment(main, root, extra_files={'conf/dowhile.yaml': dw})
         ctx.exp = exp
         inst = exp.instanceDirectory.location
@@ -142,7 +152,28 @@ def run_case(case, schedule, opts):
         sm.repeatInterval = case['status_interval']
         oa = O.OutputAgent(exp)
         sm.run(controller)
+        rs = case.get('restart_stage') if case.get('mode') == 'restart' else None
+        if rs is not None and rs >= len(exp._stages):
+            rs = len(exp._stages) - 1
         for stage in exp._stages:
+            if rs is not None and stage.index == rs:
+                # the process is gone; a new one opens the instance and carries on from this stage
+                sm.kill()
+                try:
+                    with open(os.path.join(os.path.realpath(exp.instanceDirectory.outputDir), 'output.json')) as f:
+                        result['listed_before_restart'] = sorted(json.load(f))
+                except Exception as e:
+                    result['listed_before_restart'] = []
+                del controller, comps, sm, oa
+                exp = e2.reload_instance(inst)
+                ctx.exp = exp
+                REC.count('fault.crash_between_updates_and_restart')
+                controller, comps = R.new_controller(exp, initial_stage=rs)
+                ctx.controller = controller
+                sm = O.StatusMonitor(exp, report_components=False)
+                sm.repeatInterval = case['status_interval']
+                oa = O.OutputAgent(exp)
+                sm.run(controller)
             controller.initialise(stage, R.FakeStatus())
             controller.run()
             oa.process_stage(stage.index)
@@ -201,6 +232,24 @@ def run_case(case, schedule, opts):
             except Exception as e:
                 V('in-situ:instance-does-not-load-after-crash', {'error': repr(e)[:400], 'crash': crashed_at})
         REC.note_abstract(crashed_at.get('file'), crashed_at.get('kind'), crashed_at.get('iteration'))
+    elif stop is None and case.get('mode') == 'restart' and exp is not None:
+        # every key-output whose stage completed - before or after the restart - is in the listing
+        out = os.path.realpath(exp.instanceDirectory.outputDir)
+        import experiment.model.conf as C
+        for name, loader in (('output.txt', lambda p: json.loads(C.ConfigurationFileToJson(p))),
+                             ('output.json', lambda p: json.load(open(p)))):
+            try:
+                listing = loader(os.path.join(out, name))
+            except Exception as e:
+                V('restart:%s:does-not-load' % name, {'error': repr(e)[:300]})
+                continue
+            for key in result.get('listed_before_restart') or []:
+                if key not in listing:
+                    V('restart:%s:entry-written-before-the-restart-is-lost' % name,
+                      {'missing': key, 'listed': sorted(listing), 'listed_before_restart': result.get('listed_before_restart'),
+                       'restart_stage': case.get('restart_stage'),
+                       'stages_completed': outcomes})
+        REC.count('probe.restart_runs_judged')
     elif stop is None:
         REC.count('probe.run_completed_before_crash_point')
         REC.count('probe.boundaries_in_run', fs.count if fs else 0)
@@ -211,5 +260,5 @@ def run_case(case, schedule, opts):
         import collections
         c = collections.Counter((os.path.basename(f).split('.')[0] + ('.tmp' if f.endswith('.tmp') else ''), k) for (_, k, f) in fs.log)
         result['sample']['fslog'] = sorted((list(k), v) for k, v in c.items())
-    result['distinct_units'] = 1 if crashed_at else 0
+    result['distinct_units'] = 1 if (crashed_at or case.get('mode') == 'restart') else 0
     return common.finish_run(simk, R, K, root, result)
